@@ -22,7 +22,7 @@ static const char *const rg_freqname[] = {"", "YEARLY", "MONTHLY", "WEEKLY", "DA
 static const char *const rg_menu[NPARTS][RG_MAXMENU] = {
 	[P_MON] = {"1", "2", "6,12", "1,3,5,7,8,10,12"},
 	[P_WK] = {"20,40", "1", "53", "-1"},
-	[P_YDAY] = {"1", "60", "366", "-1", "100,200,-100"},
+	[P_YDAY] = {"1", "60", "366", "-1", "100,200,-100", "1,-1", "1,365,366"},
 	[P_MDAY] = {"1", "15", "31", "-1", "29,30,31", "-1,-2", "1,-1"},
 	[P_DAY] = {"MO", "SA,SU", "TU,TH", "MO,WE,FR", "MO,TU,WE,TH,FR,SA,SU"},
 	[P_DAYORD] = {"1MO", "-1FR", "5MO", "2TU,-2TU", "53MO", "-53MO", "20WE,-20WE"},
